@@ -45,7 +45,7 @@ RULE = (
     "(>=2 windows were emitted or a window was closed by its rule before the source's terminal), buffer form: >=2 lists of which >=1 "
     "non-empty; distinct = (rule, parameters, timeline, form)"
 )
-BUDGET = {"quick": 180.0, "thorough": 2400.0}
+BUDGET = {"quick": 300.0, "thorough": 2400.0}
 
 
 # ------------------------------------------------------------------ reference models
